@@ -473,6 +473,10 @@ def triples(seed, count, maxcells=3, minors=(5, 4, 2), max_edits=2, ops=None, ta
     """(base, local, remote) with local/remote derived from base by random edit scripts."""
     rnd = random.Random(seed)
     bases = base_notebooks(maxcells, minors)
+    rnd2 = random.Random(seed * 31 + 7)
+    # (copied before the first triple is handed out: code under check that modifies its inputs must not reach the later cases through
+    # objects the cases share)
+    tail_bases = copy.deepcopy(rnd2.sample(bases, min(len(bases), 12))) if ops is None and tail and count >= 20 else []
     for k in range(count):
         b = bases[k % len(bases)] if k < 2 * len(bases) else rnd.choice(bases)
         u = rnd.random()
@@ -552,8 +556,7 @@ def triples(seed, count, maxcells=3, minors=(5, 4, 2), max_edits=2, ops=None, ta
     if ops is None and tail and count >= 20:
         # after the drawn sample (indices count, count+1, ...; the draws above are left as they are): one side converts a code cell to
         # markdown/raw keeping its id, as the Jupyter UI does, while the other side only re-runs it
-        rnd2 = random.Random(seed * 31 + 7)
-        for b in rnd2.sample(bases, min(len(bases), 12)):
+        for b in tail_bases:
             t = retype_vs_rerun_triple(b, rnd2)
             if t is not None:
                 yield t
